@@ -17,17 +17,46 @@ type wfGen struct {
 	MaxRuns   int
 	Kinds     []int // nil = all
 	FuelMax   int
+	// PreferFlows biases start nodes and connection sources towards flows used as members.
+	PreferFlows bool
 }
 
 var prefixActions = []string{"a", "ab", "abc", "", "default"}
 
 func draw[T any](rt *rapid.T, g *rapid.Generator[T], label string) T { return g.Draw(rt, label) }
 
+// rapid's integer generators are deliberately biased towards small values and range
+// boundaries, which would distort probabilities. mix() turns a drawn uint64 into a
+// (practically) uniform one; the raw value 0 - rapid's shrink target - always maps to
+// "no" / the first choice so that shrinking still simplifies.
+func mix(v uint64) uint64 {
+	v += 0x9e3779b97f4a7c15
+	v = (v ^ (v >> 30)) * 0xbf58476d1ce4e5b9
+	v = (v ^ (v >> 27)) * 0x94d049bb133111eb
+	return v ^ (v >> 31)
+}
+
 func perMille(rt *rapid.T, p int, label string) bool {
 	if p <= 0 {
 		return false
 	}
-	return rapid.IntRange(0, 999).Draw(rt, label) < p
+	v := rapid.Uint64().Draw(rt, label)
+	if v == 0 {
+		return false
+	}
+	return mix(v)%1000 < uint64(p)
+}
+
+// uniform draws an (almost exactly) uniform int in [0,n).
+func uniform(rt *rapid.T, n int, label string) int {
+	if n <= 1 {
+		return 0
+	}
+	v := rapid.Uint64().Draw(rt, label)
+	if v == 0 {
+		return 0
+	}
+	return int(mix(v) % uint64(n))
 }
 
 func (g wfGen) outcome(rt *rapid.T, p int, label string) Outcome {
@@ -89,10 +118,17 @@ func (g wfGen) gen(rt *rapid.T) WF {
 	for f := 0; f < nf; f++ {
 		avail := len(w.Nodes)
 		fs := &FlowSpec{Start: rapid.IntRange(0, avail-1).Draw(rt, "start")}
+		if g.PreferFlows && avail > nl && rapid.Bool().Draw(rt, "startflow") {
+			fs.Start = rapid.IntRange(nl, avail-1).Draw(rt, "startf")
+		}
 		nc := rapid.IntRange(0, 3*avail).Draw(rt, "nconns")
 		for c := 0; c < nc; c++ {
+			from := rapid.IntRange(0, avail-1).Draw(rt, "from")
+			if g.PreferFlows && avail > nl && rapid.Bool().Draw(rt, "fromflow") {
+				from = rapid.IntRange(nl, avail-1).Draw(rt, "fromf")
+			}
 			fs.Conns = append(fs.Conns, Conn{
-				From:   rapid.IntRange(0, avail-1).Draw(rt, "from"),
+				From:   from,
 				Action: rapid.SampledFrom(g.Actions).Draw(rt, "caction"),
 				To:     rapid.IntRange(-1, avail-1).Draw(rt, "to"),
 			})
